@@ -37,7 +37,7 @@ impl Property for C03 {
         [300, 8, 60]
     }
     fn required_classes(&self) -> Vec<&'static str> {
-        vec!["layout-subset", "layout-permuted", "output-Z", "output-X", "expected-Z", "pass", "fail", "Z-matches-Z", "X-output-vs-number", "virtual", "bidirectional"]
+        vec!["layout-subset", "layout-permuted", "output-Z", "output-X", "expected-Z", "pass", "fail", "Z-matches-Z", "X-output-vs-number", "virtual", "bidirectional", "supplied-output-not-in-header"]
     }
     fn run(&self, s: &Streams) -> CaseOut {
         let mut out = CaseOut::new();
@@ -49,6 +49,8 @@ impl Property for C03 {
         cfg.interleave = true;
         cfg.widths = Widths::All64;
         cfg.odd_names = true;
+        cfg.omit_cols = true;
+        cfg.permute_header = true;
         let sigs = gen_signals(&mut ch, &cfg);
         let nv = ch.upto(3);
         let outs: Vec<String> = sigs.iter().filter(|s| s.is_output() && is_ident(&s.name)).map(|s| s.name.clone()).collect();
@@ -146,6 +148,10 @@ impl Property for C03 {
         out.class_if(subset, "layout-subset");
         out.class_if(permuted, "layout-permuted");
         out.class_if(!virtuals.is_empty(), "virtual");
+        out.class_if(
+            spec.layout.iter().any(|i| !prog.header.contains(&sigs[*i].expected_col().unwrap())),
+            "supplied-output-not-in-header",
+        );
         out.class_if(sigs.iter().any(|s| matches!(s.kind, Kind::Bidir(_))), "bidirectional");
 
         let Some(tc) = load_wellformed(&mut out, "c03", &text, &sigs) else {
